@@ -152,6 +152,13 @@ func c08Run(c *Ctx) {
 		if c.Mine() {
 			judge(&Case{Gen: "arg-count", Src: Call("f", ps...) + ";", X: map[string]string{"args": fmt.Sprint(np)}})
 		}
+		// the same declaration with one token per line: the diagnostic line is then sharp
+		if c.Mine() {
+			judge(&Case{Gen: "param-limit-multiline", Src: K["fun"] + "\nf\n(\n" + strings.Join(ps, "\n,\n") + "\n)\n{\n}\n", X: map[string]string{"params": fmt.Sprint(np)}})
+		}
+		if c.Mine() {
+			judge(&Case{Gen: "param-limit-multiline", Src: K["fun"] + " f(" + strings.Join(ps, ",\n") + "\n) {\n" + Print("1") + "\n}\n", X: map[string]string{"params": fmt.Sprint(np)}})
+		}
 	}
 	// 5. nothing runs: printing prefix + one error on the last line (also through the binary)
 	errs := []string{"@", `"unterminated`, "/* open", Print("1") + " )", Print("1 +"), K["var"] + " ;", "1 = 2;", "}", Print("(1"), K["if"] + " x", K["fun"] + " (", "a b", Var(B["len"], "1"), "1" + strings.Repeat("0", 400) + ";"}
